@@ -310,6 +310,13 @@ func confirmAndReport(r *ev.Run, v explore.Violation) {
 				found = true
 			}
 		}
+		if (!found || (i > 0 && o.Exec.Hash != hash)) && r.Violations() > 0 {
+			// confirmed violations of this tree have been reported
+			// already: a further candidate that does not replay
+			// identically is dropped, it does not undo them
+			fmt.Printf("note: candidate %s of %s dropped: it does not reproduce deterministically\n", v.Key, v.Scenario)
+			return
+		}
 		if !found || (i > 0 && o.Exec.Hash != hash) {
 			ev.Framework("violation %s of %s does not reproduce deterministically on replay %d (found=%v hash %x vs %x) choices=%v",
 				v.Key, v.Scenario, i, found, o.Exec.Hash, hash, v.Choices)
